@@ -61,6 +61,10 @@ static void RngCase(const json& c, vh::Report& r) {
     eq("before", a.IsBefore(b)); eq("after", a.IsAfter(b)); eq("meets", a.Meets(b)); eq("starts", a.Starts(b));
     eq("finishes", a.Finishes(b)); eq("during", a.IsDuring(b)); eq("equal", a == b);
     if ((a != b) == e["equal"].get<bool>()) fail("StrRange.notequal");
+    // dual and symmetric relations agree with each other - for every pair of ranges, empty operands included
+    if (a.IsBefore(b) != b.IsAfter(a)) fail("StrRange.before/after duality");
+    if (a.Overlaps(b) != b.Overlaps(a)) fail("StrRange.overlaps symmetry");
+    if (a.SharesBorder(b) != b.SharesBorder(a)) fail("StrRange.shares symmetry");
     if (e["proper"].get<bool>()) { eq("overlaps", a.Overlaps(b)); eq("contains", a.Contains(b)); eq("shares", a.SharesBorder(b)); }
     else {
       if (a.Overlaps(b) != e["overlapsImpl"].get<bool>()) r.Drift("C20", "Overlaps(empty operand)", c);
